@@ -592,20 +592,29 @@ def run(ctx):
         tn = tbl.methods.get(note) if tbl else None
         good = False
         if tn is not None:
-            locs = {}
-            for n in ast.walk(tn.node):
-                if isinstance(n, ast.Assign) and isinstance(n.targets[0], ast.Name):
-                    locs[n.targets[0].id] = n.value
-            for recv, a, val, ln in _stores(tn.node):
+            from sa.inline import expand as _exp14
+            from sa import paths as P14
+
+            tnx = _exp14(prog, tn, depth=3, local_only=True)   # a helper shared by the two notifications is read in place
+            locs = P14.value_aliases(tnx)
+            for recv, a, val, ln in _stores(tnx):
                 if recv == "self._graphic_frame" and a == frame_attr:
-                    v = locs.get(val.id) if isinstance(val, ast.Name) else val
-                    while isinstance(v, ast.Call) and dotted(v.func) in ("Emu", "int", "Length") and v.args:
-                        v = v.args[0]
+                    v = val
+                    for _ in range(6):
+                        if isinstance(v, ast.Name) and v.id in locs:
+                            v = locs[v.id]
+                        elif isinstance(v, ast.Call) and dotted(v.func) in ("Emu", "int", "Length") and len(v.args) == 1:
+                            v = v.args[0]
+                        else:
+                            break
                     if isinstance(v, ast.Call) and dotted(v.func) == "sum" and v.args:
                         comp = v.args[0]
+                        if isinstance(comp, ast.Name) and comp.id in locs:
+                            comp = locs[comp.id]
                         if isinstance(comp, (ast.ListComp, ast.GeneratorExp)) and len(comp.generators) == 1 and not comp.generators[0].ifs:
                             g = comp.generators[0]
-                            good = dotted(g.iter) == "self." + seq and dotted(comp.elt) == "%s.%s" % (g.target.id, prop)
+                            it_ = locs.get(g.iter.id, g.iter) if isinstance(g.iter, ast.Name) else g.iter
+                            good = dotted(it_) == "self." + seq and isinstance(g.target, ast.Name) and dotted(comp.elt) == "%s.%s" % (g.target.id, prop)
         if good:
             ctx.ok("R14.4", "Table.%s" % note, sample={"assigns": "self._graphic_frame.%s" % frame_attr, "value": "sum(%s.%s for all %s)" % (seq[:-1], prop, seq)})
         else:
@@ -717,13 +726,64 @@ def run(ctx):
         n = of_expr(loop.iter.args[0])
         i = loop.target.id
 
+        def split_test(t):
+            """(truth in an ordinary iteration i in [0, n-2], truth in the last iteration i == n-1) of a comparison that is affine
+            in the loop variable, when both are the same for every n; None otherwise.  `i == n-1`, `i != n-1`, `i < n-1`,
+            `i + 1 >= n`, `last - i > 0` ... all separate the last iteration from the others."""
+            neg = False
+            while isinstance(t, ast.UnaryOp) and isinstance(t.op, ast.Not):
+                t, neg = t.operand, not neg
+            if not (isinstance(t, ast.Compare) and len(t.ops) == 1):
+                return None
+            try:
+                d = of_expr(t.left, dict(pre, **{i: Poly.sym(i)}), W) - of_expr(t.comparators[0], dict(pre, **{i: Poly.sym(i)}), W)
+            except Exception:
+                return None
+            if i not in d.symbols():
+                return None
+            at = lambda k: d.subst(i, n - Poly.const(k))
+            k0, c1, c2 = at(1), at(1) - at(2), at(2) - at(3)
+            if not (k0.is_const() and c1.is_const() and c1 == c2 and (c1.const_value() or 0) != 0):
+                return None
+            k0, c = k0.const_value() or 0, c1.const_value()
+            hi = k0 - c   # the value nearest to the last iteration's; the others move away from it in the direction of -c
+            op = t.ops[0]
+            if isinstance(op, (ast.Eq, ast.NotEq)):
+                q = k0 / c
+                if q > 0 and q == int(q):
+                    return None   # some ordinary iteration also satisfies the equality
+                o_, l_ = False, k0 == 0
+                if isinstance(op, ast.NotEq):
+                    o_, l_ = not o_, not l_
+            else:
+                strict = isinstance(op, (ast.Lt, ast.Gt))
+                below = isinstance(op, (ast.Lt, ast.LtE))
+                if not isinstance(op, (ast.Lt, ast.LtE, ast.Gt, ast.GtE)):
+                    return None
+                holds = lambda v: (v < 0 if strict else v <= 0) if below else (v > 0 if strict else v >= 0)
+                l_ = holds(k0)
+                # ordinary values: hi, hi - c, hi - 2c, ... (monotone): uniform iff the first one already lies on the side they move to
+                if (c > 0) == below:
+                    if not holds(hi):
+                        return None
+                    o_ = True
+                else:
+                    if holds(hi):
+                        return None
+                    o_ = False
+            return (o_ != neg, l_ != neg)
+
         def is_last_test(t):
-            return isinstance(t, ast.Compare) and isinstance(t.ops[0], ast.Eq) and dotted(t.left) == i \
-                and of_expr(t.comparators[0]) == n - Poly.const(1)
+            r_ = split_test(t)
+            return r_ is not None
+
+        def arm(st_or_e, last):
+            r_ = split_test(st_or_e.test)
+            return r_[1] if last else r_[0]
 
         def ev(e, env, last):
             if isinstance(e, ast.IfExp) and is_last_test(e.test):
-                return ev(e.body if last else e.orelse, env, last)
+                return ev(e.body if arm(e, last) else e.orelse, env, last)
             if isinstance(e, ast.Call) and dotted(e.func) in W and len(e.args) == 1:
                 return ev(e.args[0], env, last)
             if isinstance(e, ast.BinOp) and isinstance(e.op, (ast.Add, ast.Sub, ast.Mult)):
@@ -736,7 +796,7 @@ def run(ctx):
             val = None
             for st in loop.body:
                 if isinstance(st, ast.If) and is_last_test(st.test):
-                    for s2 in (st.body if last else st.orelse):   # the arm this iteration takes (no else: nothing happens)
+                    for s2 in (st.body if arm(st, last) else st.orelse):   # the arm this iteration takes (no else: nothing happens)
                         if isinstance(s2, ast.Assign) and isinstance(s2.targets[0], ast.Name):
                             env[s2.targets[0].id] = ev(s2.value, env, last)
                         elif isinstance(s2, ast.AugAssign) and isinstance(s2.target, ast.Name) and isinstance(s2.op, (ast.Add, ast.Sub)) \
